@@ -28,6 +28,7 @@ const (
 	SDefault404  Step = "default-404"      // http.NotFound: status 404 unless committed, then the body
 	SWriteStr    Step = "write-string"     // io.WriteString(c.Resp, "x"): same as SWrite for the specification
 	SAddErr      Step = "add-error"        // Context.AddError: recorded for the OnError hook, invisible to the chain
+	SFlush       Step = "flush"            // c.Resp.(http.Flusher).Flush(): commits the response like a write, with the status selected so far
 )
 
 // Behaviour is the body of one handler: a sequence of steps.
@@ -87,7 +88,7 @@ func RunChain(bs []Behaviour, abortCode int) ChainResult {
 					}
 				}
 				aborted = true
-			case SWrite, SWriteStr:
+			case SWrite, SWriteStr, SFlush:
 				if !res.Committed {
 					res.Committed = true
 					res.Status = pendingStatus
